@@ -142,7 +142,7 @@ func runSQLTomb(c *core.Ctx) {
 	var app *ssa.Call
 	an.Instrs(build, func(in ssa.Instruction) {
 		if cl, ok := in.(*ssa.Call); ok {
-			if b, ok := cl.Call.Value.(*ssa.Builtin); ok && b.Name() == "append" && an.InLoop(cl.Block()) && strings.Contains(an.PathOf(cl.Call.Args[1]), an.FuncFullName(helper)) {
+			if b, ok := cl.Call.Value.(*ssa.Builtin); ok && b.Name() == "append" && an.InLoop(cl.Block()) && (strings.Contains(an.PathOf(cl.Call.Args[1]), an.FuncFullName(helper)) || strings.Contains(an.PathOf(cl.Call.Args[1]), `const:"deleted_event_ids"`)) {
 				// same iteration: the call dominates the append inside the filter loop
 				if an.LoopBlocks(an.LoopHeaderOf(call.Block()))[cl.Block()] && an.InstrDominates(call, cl) {
 					app = cl
